@@ -16,6 +16,9 @@ operator means for the representation the translator chose.
                                                `for .. range s` ↦ structural recursion)
   Go `error`                     ↦ `Option Cause` (`Cause`: the generated inductive of sentinels)
   Go `string` (constants, ==)    ↦ `String`
+  Go `float64`, ORDER ONLY       ↦ `Rat`      (kernels marked floatOrder: the exact value; only
+                                               parameters, constants, copies and comparisons —
+                                               arithmetic is rejected; NaN / ±Inf outside the model)
   Go `any` holding a bool / int64 / uint64 / string / float64 ↦ `Any` (tagged by the dynamic
                                                type; a float64 only as a MARKER, without value)
 
@@ -75,6 +78,32 @@ def sliceInsert {α : Type} (l : List α) (i : Int) (v : α) : Res (List α) :=
 /-- `slices.Delete(s, i, j)`: removes `s[i:j]`; panics unless `0 ≤ i ≤ j ≤ len(s)`. -/
 def sliceDelete {α : Type} (l : List α) (i j : Int) : Res (List α) :=
   if i < 0 ∨ j < i ∨ (l.length : Int) < j then .panic else .val (l.take i.toNat ++ l.drop j.toNat)
+
+/-- The translated fields of a `SignalType` (signal_type.go).  The `float64` fields are the exact
+    rationals they denote (the order-only convention: they are only copied and compared). -/
+structure KSigType where
+  kind : Int
+  size : Int
+  signed : Bool
+  min : Rat
+  max : Rat
+  scale : Rat
+  offset : Rat
+  deriving Repr, DecidableEq
+
+/-- The translated fields of an `IntegerAttribute` / `FloatAttribute` (attribute.go). -/
+structure KIntAttr where
+  defValue : Int
+  min : Int
+  max : Int
+  isHexFormat : Bool
+  deriving Repr, DecidableEq
+
+structure KFloatAttr where
+  defValue : Rat
+  min : Rat
+  max : Rat
+  deriving Repr, DecidableEq
 
 /-- A Go `any` (`interface{}`) value, tagged with its dynamic type, for the dynamic types the
     translator supports.  `float64`: only the FACT that a float64 is stored — its value is the
